@@ -200,17 +200,24 @@ pub fn gen_server(rng: &mut Rng, id: usize) -> Vec<String> {
             // reads at the boundary of the small-packet rule: 128-byte reads never trip it,
             // 127-byte reads trip it at the 65th read, a mix decides by the average
             if rng.chance(1, 2) {
+                // one case in three reads exactly 128 bytes every time (the average sits on the bound),
+                // one in three alternates 129 / 127 (on the bound after every second read)
+                let mode = rng.below(3);
                 let rd: Vec<String> = (0..rng.range(60, 90))
-                    .map(|i| match rng.below(3) {
+                    .map(|i| match if mode == 0 { 0 } else if mode == 1 { 2 } else { rng.below(3) } {
                         0 => "d128".to_string(),
                         1 => "d127".to_string(),
                         _ => if i % 2 == 0 { "d129".to_string() } else { "d127".to_string() },
                     })
                     .collect();
+                if mode <= 1 {
+                    // keep these cases short: the stream ends soon after the scripted reads
+                    bytes.truncate(128 * rd.len() + 300);
+                }
                 boundary_script = Some(format!(
                     "script rd={} rddef=d{} wr=- wrdef=a{} fl=- fldef=o",
                     rd.join(","),
-                    *rng.pick(&[127usize, 128, 4096]),
+                    if mode == 0 { 4096 } else { *rng.pick(&[127usize, 128, 4096]) },
                     1usize << 40
                 ));
             }
